@@ -109,7 +109,7 @@ const REGRESSIONS: [&str; 6] = [
 ];
 
 pub fn def(tier: Tier) -> CheckDef {
-    let rounds = tier.pick(5, 80);
+    let rounds = tier.pick(40, 400);
     CheckDef {
         id: "C05",
         level: "exploration",
@@ -119,6 +119,7 @@ pub fn def(tier: Tier) -> CheckDef {
         ],
         idle_limit_s: 120,
         needs_cli: false,
+        fuzz: None,
         parts: vec![
             Part {
                 name: "regressions",
@@ -145,7 +146,7 @@ pub fn def(tier: Tier) -> CheckDef {
                 run: Box::new(|ctx, r| ctx.prop("generated", r, 400, 600, generated_case)),
                 replay: Some(Box::new(|ctx, inp| match inp {
                     ReplayInput::Choices(c) => generated_case(ctx, &mut Ch::new(c)),
-                    ReplayInput::Text(_) => Err(Failure::new("this part replays from choices", "")),
+                    _ => Err(Failure::new("this part replays from choices", "")),
                 })),
             },
         ],
